@@ -841,9 +841,43 @@ func (e *nenum) newFrame(fd *ast.FuncDecl, parent *nframe, subst map[string]stri
 		}
 		return false
 	}
+	// a local that is tested by more than one condition keeps its identity: the tests see one value, whatever it is
+	condUses := map[string]int{}
+	noteCond := func(e ast.Expr) {
+		if e == nil {
+			return
+		}
+		seen := map[string]bool{}
+		ast.Inspect(e, func(n ast.Node) bool {
+			if id, ok := n.(*ast.Ident); ok && !seen[id.Name] {
+				seen[id.Name] = true
+				condUses[id.Name]++
+			}
+			return true
+		})
+	}
+	ast.Inspect(fd.Body, func(n ast.Node) bool {
+		switch x := n.(type) {
+		case *ast.FuncLit:
+			return false
+		case *ast.IfStmt:
+			noteCond(x.Cond)
+		case *ast.ForStmt:
+			noteCond(x.Cond)
+		case *ast.SwitchStmt:
+			if x.Tag == nil {
+				for _, cl := range x.Body.List {
+					for _, ce := range cl.(*ast.CaseClause).List {
+						noteCond(ce)
+					}
+				}
+			}
+		}
+		return true
+	})
 	for _, name := range order {
 		if count[name] == 1 {
-			if d, ok := fr.defs[name]; ok && !mutated[name] && !isAlloc(d) {
+			if d, ok := fr.defs[name]; ok && !mutated[name] && !isAlloc(d) && condUses[name] < 2 {
 				continue
 			}
 		}
